@@ -141,6 +141,10 @@ class C17(Check):
                 i += 1
                 if env.mine(i):
                     yield {"k": "name", "s": (ch * ln)[: ln if len(ch) == 1 else ln]}
+        # (g) an encoded header whose packed form is larger than one I/O block (1 MiB): many long names of random astral characters
+        i += 1
+        if env.mine(i):
+            yield {"k": "bigheader", "members": 190, "namelen": 4000, "seed": 5}
         # (c) boolean vectors
         for n in range(131):
             i += 1
@@ -247,6 +251,35 @@ class C17(Check):
                     got = "raises " + type(e).__name__
                 if got != s:
                     out.violate({"kind": "name-roundtrip", "src": tag, "long": len(s) > 1000}, observed=repr(got)[:200], expected=repr(s)[:200])
+        elif k == "bigheader":
+            import random as _r
+
+            rng = _r.Random(case["seed"])
+            names = ["d%03d/" % j + "".join(chr(rng.randrange(0x20000, 0x2A6D0)) for _ in range(case["namelen"])) for j in range(case["members"])]
+            out.nontrivial = True
+            out.descriptor = ("bigheader", case["members"], case["namelen"])
+            out.label("header:over-one-block")
+            import py7zr
+
+            bio = io.BytesIO()
+            try:
+                with py7zr.SevenZipFile(bio, "w") as z:
+                    for j, n in enumerate(names):
+                        z.writestr(b"%d" % j, n)
+                # (the encoded-header record itself is tiny: the packed header is the last pack stream in front of it)
+                off, size = struct.unpack("<QQ", bio.getvalue()[12:28])
+                size = off - sum(len(b"%d" % j) for j in range(len(names)))
+                out.count("packed_header_bytes", size)
+                bio.seek(0)
+                with py7zr.SevenZipFile(bio, "r") as z:
+                    got = z.getnames()
+            except Exception as e:
+                out.violate({"kind": "big-header-roundtrip-raises", "exc": type(e).__name__}, observed=repr(e)[:200], expected="names read back")
+                return out
+            if size <= (1 << 20):
+                out.inconclusive = "packed header not above one block"
+            if got != names:
+                out.violate({"kind": "big-header-names-differ"}, observed={"n": len(got)}, expected={"n": len(names)})
         elif k == "cprange":
             # every scalar value of the range as first, middle, last and only character of a name
             out.nontrivial = True
@@ -354,9 +387,10 @@ def header_cases():
     f = st.fixed_dictionaries({"name": G.rel_name(3, 8), "es": st.booleans(), "mtime": ftime, "attr": attr, "size": size,
                                "crc": st.one_of(st.none(), st.integers(0, 0xFFFFFFFF))})
     files = st.lists(f, min_size=0, max_size=40, unique_by=lambda d: d["name"])
-    return st.builds(lambda files, cuts, sc, mode, packcrc: {"k": "header", "files": files, "cuts": cuts, "shortcut": sc,
-                                                              "mode": mode, "packcrc": packcrc},
-                     files, st.lists(st.integers(1, 5), max_size=3), st.booleans(), st.sampled_from(["raw", "encoded"]), st.booleans())
+    return st.builds(lambda files, cuts, sc, mode, packcrc, fcrc: {"k": "header", "files": files, "cuts": cuts, "shortcut": sc,
+                                                                    "mode": mode, "packcrc": packcrc, "fcrc": fcrc},
+                     files, st.lists(st.integers(1, 5), max_size=3), st.booleans(), st.sampled_from(["raw", "encoded"]), st.booleans(),
+                     st.lists(st.booleans(), max_size=4))
 
 
 def build_model(case):
@@ -380,16 +414,25 @@ def build_model(case):
     if i < len(data_files):
         folders.append(data_files[i:])
     fe = []
-    for members in folders:
+    for fidx, members in enumerate(folders):
         total = sum(m["size"] for m in members) & U64
         if sum(m["size"] for m in members) > U64:
             # keep the sum inside 64 bits: shrink sizes
             for m in members:
                 m["size"] &= 0xFFFFFFFF
             total = sum(m["size"] for m in members)
-        fe.append({"coders": [{"m": "00", "props": None}], "packed": b"", "packsize": total, "packcrc": 0x12345678,
-                   "unpack_sizes": [total], "subs": [(m["size"], m["crc"] or 0) for m in members], "fcrc": False,
-                   "folder_crc_value": 0, "scrc": [m["crc"] is not None for m in members]})
+        rec = {"coders": [{"m": "00", "props": None}], "packed": b"", "packsize": total, "packcrc": 0x12345678,
+               "unpack_sizes": [total], "subs": [(m["size"], m["crc"] or 0) for m in members], "fcrc": False,
+               "folder_crc_value": 0, "scrc": [m["crc"] is not None for m in members]}
+        want_fcrc = case.get("fcrc") or []
+        if fidx < len(want_fcrc) and want_fcrc[fidx] and members:
+            # a CRC at folder level; with a single substream it *is* that member's CRC and no substream digest is stored
+            rec["fcrc"] = True
+            rec["folder_crc_value"] = (members[0]["crc"] if members[0]["crc"] is not None else 0xABCDEF01) if len(members) == 1 else 0x0F0E0D0C
+            if len(members) == 1:
+                rec["subs"] = [(members[0]["size"], rec["folder_crc_value"])]
+                rec["scrc"] = [True]
+        fe.append(rec)
     return files, fe
 
 
